@@ -108,8 +108,8 @@ def str_method(it, recv, name, args, kwargs):
                 # word-equation view: e = a . sep . b with the first
                 # occurrence of sep (for a one-character separator: sep does
                 # not occur in a)
-                a = ctx.fresh_str('head')
-                b = ctx.fresh_str('tail')
+                a = M.F_SplitHead(e, sep.e)
+                b = M.F_SplitTail(e, sep.e)
                 ctx.assume(e == z3.Concat(a, sep.e, b))
                 if is_concrete_str(sep) and len(concrete_str(sep)) == 1:
                     ctx.assume(z3.Not(z3.Contains(a, sep.e)))
